@@ -265,3 +265,4 @@ REGISTER_ENUM(ZooColor, {
 	{ ZooColor::Green, "Green" },
 	{ ZooColor::Blue, "Blue" }
 })
+DECLARE_ENUM_STREAM_OPS(ZooColor)
